@@ -81,20 +81,19 @@ func runC09(c *core.Ctx) *core.Violation {
 	// ---- draw the case
 	backend := "mem"
 	capacity := 4096
-	switch t.Choose(10) {
-	case 0, 1, 2, 3, 4:
-		capacity = 4096
-	case 5, 6, 7:
-		capacity = 8192
-	case 8:
+	switch k := t.Choose(12); k {
+	case 11:
+		backend = "file"
+		capacity = pipe.FileSizeAlign
+	case 10:
 		if c.Thorough() {
 			capacity = 65536
 		} else {
-			capacity = 12288
+			capacity = 16384
 		}
-	case 9:
-		backend = "file"
-		capacity = pipe.FileSizeAlign
+	default:
+		// 1..7 alignment units, including capacities that are not powers of two
+		capacity = 4096 * []int{1, 1, 1, 2, 2, 3, 3, 5, 6, 7}[k]
 	}
 	reqSize := capacity
 	if backend == "mem" && t.Chance(300) {
